@@ -48,6 +48,8 @@ pub fn semantic(v: &Value) -> Value {
             let mut out = Map::new();
             for (k, x) in m {
                 if DROP.contains(&k.as_str()) { continue; }
+                // keys a parent has revoked are history, not state ("up to fresh keys")
+                if x.as_str() == Some("revoked") { continue; }
                 let nk = erase_tokens(k);
                 let nv = semantic(x);
                 // two keys may collapse onto one: keep both in a list
